@@ -1,0 +1,8 @@
+//go:build verif
+
+package misc
+
+// Exported aliases for the verification harness in /verif (compiled only with `-tags verif`).
+
+func VerifBinToMnemonic(input []uint8) string    { return binToMnemonic(input) }
+func VerifMnemonicToBin(mnemonic string) []uint8 { return mnemonicToBin(mnemonic) }
